@@ -473,6 +473,11 @@ func (m *Machine) eqTerm(t types.Type, x, y value) *Term {
 			return m.tt.Bool(types.Identical(xv.t, yv.t))
 		}
 		return m.tt.False
+	case poison:
+		panic(unsupported{"comparison of a poisoned init result: " + xv.why})
+	}
+	if p, ok := y.(poison); ok {
+		panic(unsupported{"comparison of a poisoned init result: " + p.why})
 	}
 	panic(fmt.Sprintf("eqTerm: unhandled %T", x))
 }
